@@ -14,6 +14,10 @@ CHECKS = {
   "exhaustive enumeration of the matrix (schema node kind in context) x (serde presentation): every Serializer method, every integer width at its boundaries, strs/bytes/sequences around every fixed size, wrong length hints, field sets exact/missing/unknown/duplicated/permuted, named and type-directed union selection; every Ok result is decoded by the reference decoder and judged by a denotation relation that does not depend on the branch the crate chose",
   "trusted: vmodel decoder; the denotation relation den() (DESIGN.md §4 C02); abstains on documented-lossy conversions (f64->float, decimal rescale, f64->decimal); bounds: one (quick) / two (thorough) levels of context around each node kind",
   "small-scope exhaustive enumeration of a (schema x presentation) matrix against a reference decoder", "DESIGN.md §4 C02"),
+ "C03": ("model_checking",
+  "small-scope exhaustive enumeration: every schema of the shared alphabet x values (sweep A: every boundary value with collections <= 2 items; sweep B: deterministic wide values with n = 3-5 items) x ALL block layouts of every array/map occurrence (every composition of the items into blocks x every sign assignment, negative counts carrying byte sizes; nested occurrences jointly up to a product cap with one plan per start collection) x single-point malformations (boolean byte 2/0x80/0xff; string, uuid, map-key bytes -> 0xff/0xc0/lone 0xe2; union and enum index -> len, len+1, -1; length -> -1, remaining+1, 2^62; every block count incl. the terminator -> i64::MIN; truncation at every prefix (<= 32 bytes) or every token boundary +-1); every byte string is judged by the reference decoder: Valid(v, n) => the crate delivers v and consumes n in modes Any / Hinted / Optioned from slice, whole-buffer reader and 1-byte-chunk reader; Invalid => Err; Unspecified or outside the documented decimal limits => no comparison",
+  "trusted: vmodel decoder as the judge of every input; bounds as stated (quick: full malformation set on canonical layouts only); typed Rust targets are C01's",
+  "small-scope exhaustive enumeration of encodings (all block layouts) and one-point malformations against a reference decoder", "DESIGN.md §4 C03"),
  "C04": ("model_checking",
   "explicit-state search over the decoder's input-consumption tree: a byte-string prefix is expanded over a 10-symbol byte alphabet only if decoding it ended because the input ran out (so the depth budget of 8 / 12 bytes goes to the prefixes that keep the decoder hungry: huge counts, huge lengths, nested block headers), for 17 hostile schemas (array<null>, map<null>, recursive records, big-decimal, ...) plus the shared alphabet; 39-45 decodes per node: slice, 1-byte-refill reader, whole-buffer reader x targets (observation, IgnoredAny, non-allocating fold, typed Rust types) x limits tightened one at a time (allowed_depth 0/1/2, max_seq_size 0/1/3, max_alloc_size 0/1/8); oracle: no panic/abort/hang (worker subprocesses under an address-space limit), the reference decoder's nesting / longest collection / largest field above a limit => Err, slice path with a non-allocating target and Ok => 0 heap allocations (counting allocator), peak heap <= 2048 + max_alloc_size + |input|, fill_buf/read calls <= 4|input| + 2 values + 16; plus ~440 literal adversarial seeds under default limits (i64::MIN counts, 2^62 lengths, 10^9 zero-byte elements, 10^5-deep recursion)",
   "trusted: vmodel decoder (shape of valid datums); the counting allocator; bounds: per-schema node caps (dense trees stop at depth 3-6, reported per schema in the evidence: a capped run is not called exhaustive), limits varied one at a time",
@@ -46,6 +50,10 @@ CHECKS = {
   "(a) every valid and forward-reference document of C07: Schema::json() = SchemaMut->freeze->json() = the original document minified, compared with an own ordered JSON reader (key order preserved); (b) every programmatically built graph: all node vectors of <= 3 nodes (quick; 4-5 thorough with restrictions) over int/string/array/map/union/record(1-2 fields)/enum/fixed/logical variants with EVERY assignment of in-range keys (all DAG sharings, all cycles), unique fullnames, all namespace arrangements over 4 namespaces: graphs whose cycles all pass through a named node must render, re-parse (reference resolver and the crate's parser) to a bisimilar graph with the same fingerprint and freeze Ok with the same text; graphs with a cycle through unnamed nodes only must give Err from both to_string and freeze; (c) edited graphs (rename, add field) judged like (b); cyclic graphs render in worker subprocesses",
   "trusted: vmodel resolver (leading-dot references allowed), PCF, CRC; bounds as stated",
   "small-scope exhaustive enumeration of node graphs (all key assignments) against a reference resolver", "DESIGN.md §4 C09"),
+ "C12": ("model_checking",
+  "small-scope exhaustive enumeration: every schema S of the shared alphabet embedded as record{ignored: S, sentinel}, record{a: S, b: S, sentinel}, record{arr: array<S>, sentinel} / record{m: map<S>, sentinel}, record{u: [S, long], sentinel} x values x all block layouts (incl. negative-count blocks with byte sizes, so that the block-skipping fast path is taken: 1.35 M such cases in quick) x ignoring targets: each payload field absent from the target struct, the whole datum or EVERY sub-tree of the payload (every element, map key, map value, union payload) as IgnoredAny, every taken non-null union branch as a unit variant - from slice, whole-buffer reader and 1-byte-chunk reader; oracle: the ignoring decode is Ok, equals the non-ignoring observation with the ignored part blanked (sentinel and every other field identical) and consumes exactly the reference encoding's length",
+  "trusted: vmodel encoder (lengths) and the non-ignoring decode as baseline (whose own correctness is C03's); bounds as stated",
+  "small-scope exhaustive enumeration of (schema, value, layout, ignored sub-tree) against the non-ignoring decode and a reference encoder", "DESIGN.md §4 C12"),
  "C13": ("model_checking",
   "SAE: the serialization itself is the choice tree - at every record occurrence and step the driver picks any not-yet-presented field (all n! orders, nested occurrences independently), end (all omission subsets) or once per run an unknown / duplicate field at every position, in struct / map-entry / map-split-key-value styles, over all vectors of <= 4 (thorough 5) flat field types and families with nested records, arrays of records, nullable records; oracle: Ok bytes = reference encoding in schema order with omitted nullable fields as null, injections => Err, never a panic; HIST: the real DatumSerializer's serialize_struct state machine driven one call at a time with a shared-handle sink, after every serialize_field the bytes emitted so far must be exactly the encodings of fields 0..j-1 (j = smallest index not yet presented)",
   "trusted: vmodel encoder; bounds: records of <= 4/5 fields, <= 2-3 nested levels; a handle that returned Err is not used further (well-behaved Serialize)",
